@@ -94,16 +94,15 @@ def gen_data(rng, ns, nc, kind):
 # --------------------------------------------------------------------------
 # kind 2: codec
 # --------------------------------------------------------------------------
-def codec_case(tdir, nc, ns, cs, D, nthreads):
+def codec_case(tdir, nc, ns, cs, D, nthreads, stem="rec_g0_t0.nidq", as_str=False):
     """Real compress_file / decompress_file on one flat binary; returns the observation."""
     spikeglx, mtscomp = _imports()
     d = Path(tdir)
-    stem = "rec_g0_t0.nidq"
     b = d / (stem + ".bin")
     D.tofile(b)
     b.with_suffix(".meta").write_text(meta_text(nc, ns, 1))
     obs = {"nc": nc, "ns": ns, "cs": cs, "problems": []}
-    sr = spikeglx.Reader(b)
+    sr = spikeglx.Reader(str(b) if as_str else b)
     out = sr.compress_file(keep_original=True, chunk_duration=cs / FS, n_threads=nthreads)
     if Path(out) != b.with_suffix(".cbin") or not Path(out).exists():
         obs["problems"].append("compress_file did not return/create x.cbin")
@@ -114,8 +113,8 @@ def codec_case(tdir, nc, ns, cs, D, nthreads):
     obs["payloads"] = [list(zlib.decompress(raw[offs[i]:offs[i + 1]])) for i in range(len(offs) - 1)]
     if offs[-1] != len(raw):
         obs["problems"].append("chunk offsets do not end at the end of the .cbin")
-    sc = spikeglx.Reader(out)
-    sm = spikeglx.Reader(b.with_suffix(".meta"))
+    sc = spikeglx.Reader(str(out) if as_str else out)
+    sm = spikeglx.Reader(str(b.with_suffix(".meta")) if as_str else b.with_suffix(".meta"))
     # transparency at the chunk seams (the selector semantics in general is C01's subject)
     if tuple(sc.shape) != (ns, nc) or tuple(sr.shape) != (ns, nc) or tuple(sm.shape) != (ns, nc):
         obs["problems"].append("shape differs: bin %s cbin %s meta %s" % (sr.shape, sc.shape, sm.shape))
@@ -133,6 +132,28 @@ def codec_case(tdir, nc, ns, cs, D, nthreads):
             obs["problems"].append("Reader[%d] differs between .bin and .cbin" % i)
     if not np.array_equal(sr[:, :], sc[:, :]):
         obs["problems"].append("full read differs between .bin and .cbin")
+    # the .ch table: offsets start at 0 and grow; chunk k read through the table is rows [b_k, b_k+1)
+    if offs[0] != 0 or any(y <= x for x, y in zip(offs, offs[1:])) or len(offs) != len(obs["bounds"]):
+        obs["problems"].append("chunk_offsets table is not 0 = o_0 < o_1 < ... with one entry per bound")
+    for k in range(len(offs) - 1):
+        ck = sc._raw.read_chunk(k, offs[k], offs[k + 1] - offs[k])
+        if not np.array_equal(ck, D[obs["bounds"][k]:obs["bounds"][k + 1]]):
+            obs["problems"].append("read_chunk(%d) is not rows [%d, %d)" % (k, obs["bounds"][k], obs["bounds"][k + 1]))
+    # slices at every position relative to the chunk boundaries: None / negative / beyond-the-end bounds, steps >= 1
+    cand = [None] + sorted({x for s0 in seams for x in (s0, -s0 - 1)} | {-ns - 1, ns + 2})
+    for a in cand:
+        for e in cand:
+            for st in (None, 1, 2, cs, cs + 1):
+                if st is not None and st < 1:
+                    continue
+                try:
+                    y = sc._raw[slice(a, e, st)]
+                except Exception as ex:
+                    obs["problems"].append("cbin raw [%s:%s:%s] raised %r" % (a, e, st, ex))
+                    continue
+                x = D[slice(a, e, st)]
+                if y.shape != x.shape or not np.array_equal(y, x):
+                    obs["problems"].append("cbin raw [%s:%s:%s] differs from the data" % (a, e, st))
     rt = d / "roundtrip.bin"
     got = sc.decompress_file(keep_original=True, out=rt, n_threads=nthreads)
     obs["decoded"] = [int(x) for x in np.fromfile(rt, dtype=np.int16)]
@@ -167,7 +188,7 @@ class World:
         """cs = {1: chunk size of config 1, 2: chunk size of config 2}."""
         spikeglx, mtscomp = _imports()
         self.nc, self.ns, self.cs = nc, ns, cs
-        self.stem = rng.choice(["rec_g0_t0.nidq", "x", "a.b.c"])
+        self.stem = rng.choice(["rec_g0_t0.nidq", "x", "a.b.c", "x.imec0.ap"])
         self.orig, self.comp, self.hdr, self.offs, self.bounds, self.meta, self.D = {}, {}, {}, {}, {}, {}, {}
         ref = Path(root) / "ref"
         for r in (1, 2):
@@ -703,13 +724,12 @@ def _raw_kind(sr):
     return 3 if (cd is None or cd.closed) else 2
 
 
-def object_case(tdir, nc, n, cs, ns0, f0, ops, D):
+def object_case(tdir, nc, n, cs, ns0, f0, ops, D, stem="rec_g0_t0.nidq", as_str=False):
     """ops: list of op codes (see coq/C02/Run.v kind 3); ops[0] is the open() done by the constructor."""
     spikeglx, mtscomp = _imports()
     d = Path(tdir)
     ref = d / "ref"
     ref.mkdir(parents=True)
-    stem = "rec_g0_t0.nidq"
     rb = ref / (stem + ".bin")
     D.tofile(rb)
     rb.with_suffix(".meta").write_text(meta_text(nc, n, 1))
@@ -745,9 +765,11 @@ def object_case(tdir, nc, n, cs, ns0, f0, ops, D):
         for k, op in enumerate(ops):
             raised = 0
             cap.hits = 0
+            open_before = bool(sr is not None and sr.is_open)
             try:
                 if k == 0:
-                    sr = spikeglx.Reader(b if f0 == 1 else b.with_suffix(".cbin"))
+                    p0 = b if f0 == 1 else b.with_suffix(".cbin")
+                    sr = spikeglx.Reader(str(p0) if as_str else p0)
                     warned = int(cap.hits > 0)
                 elif op == 0:
                     sr.open()
@@ -759,8 +781,14 @@ def object_case(tdir, nc, n, cs, ns0, f0, ops, D):
                     sr.decompress_file(keep_original=(op == 3), overwrite=True, n_threads=1)
                     if op == 4 and was_open:        # the in-place variant re-opens an opened object
                         warned = int(cap.hits > 0)
+                elif op == 5:
+                    got = sr.decompress_to_scratch(scratch_dir=w / "scratch")
+                    if Path(got) != w / "scratch" / b.name or not Path(got).exists():
+                        obs["problems"].append(("object_scratch", "decompress_to_scratch(dir) returned %s" % got))
                 else:
-                    sr.decompress_to_scratch(scratch_dir=w / "scratch")
+                    got = sr.decompress_to_scratch()
+                    if Path(got) != b or not b.exists():
+                        obs["problems"].append(("object_scratch", "decompress_to_scratch() returned %s" % got))
             except (AssertionError, ValueError) as e:
                 raised = 1
                 if k == 0:
@@ -769,7 +797,15 @@ def object_case(tdir, nc, n, cs, ns0, f0, ops, D):
             rk = _raw_kind(sr)
             fcode = {".bin": 1, ".cbin": 2}.get(Path(sr.file_bin).suffix, 9)
             obs["steps"].append([raised, fcode, int(sr.nbytes), int(sr.ns), rk, warned,
-                                 int(b.exists()), int(b.with_suffix(".cbin").exists())])
+                                 int(b.exists()), int(b.with_suffix(".cbin").exists()),
+                                 int((w / "scratch" / b.name).exists())])
+            for lost in (b.with_suffix(".bin_temp"), w / "scratch" / (stem + ".bin_temp"), b.with_suffix(".cbin_tmp"),
+                         b.with_suffix(".ch_tmp")):
+                if lost.exists():
+                    obs["problems"].append(("object_leftover", "%s left behind by a call that returned" % lost.name))
+            for sb_ in (b, w / "scratch" / b.name):
+                if sb_.exists() and sb_.read_bytes() != D.tobytes():
+                    obs["problems"].append(("object_bytes", "%s is not the original binary byte for byte" % sb_))
             tag = "after call %d (%s)" % (k, OBJ_OPS[op])
             # the property: the same object keeps exposing the recording
             if ns0 == n and tuple(sr.shape) != (n, nc):
@@ -782,6 +818,9 @@ def object_case(tdir, nc, n, cs, ns0, f0, ops, D):
                 obs["problems"].append(("object_warning", "%s: size-mismatch warning although meta data and file agree" % tag))
             if op == 0 and raised and ns0 == n:
                 obs["problems"].append(("object_open", "%s: open() raised" % tag))
+            if op in (2, 4) and not raised and open_before and not sr.is_open:
+                obs["problems"].append(("object_unopened", "%s: the object was open before the in-place call and is not "
+                                        "open after it" % tag))
             if rk == 3 and sr.is_open:
                 obs["problems"].append(("object_raw_closed", "%s: is_open is True, file_bin is %s, but the raw reader is closed" % (
                     tag, Path(sr.file_bin).suffix)))
@@ -822,7 +861,8 @@ def object_case(tdir, nc, n, cs, ns0, f0, ops, D):
 
 
 OBJ_OPS = ["open()", "compress_file(keep_original=True)", "compress_file(keep_original=False)",
-           "decompress_file(keep_original=True)", "decompress_file(keep_original=False)", "decompress_to_scratch()"]
+           "decompress_file(keep_original=True)", "decompress_file(keep_original=False)",
+           "decompress_to_scratch(scratch_dir)", "decompress_to_scratch()"]
 
 
 def enc_obj_in(nc, n, zc, ns0, f0, ops):
@@ -840,11 +880,12 @@ def gen_object_sequences(ctx):
     rng = ctx.rng
     fixed = [(2, [0, 4, 0]), (2, [0, 4, 0, 2, 0, 4, 0]), (1, [0, 2, 0, 4, 0, 2, 0]), (1, [0, 2, 4, 0]), (2, [0, 5, 4, 0]),
              (2, [0, 5, 0, 3, 4, 0]), (1, [0, 1, 2, 0, 3, 0, 4, 0]), (2, [0, 3, 0, 4, 2, 0]), (1, [0, 5, 4, 1, 0]),
-             (2, [0, 2, 1, 4, 4, 0, 5])]
+             (2, [0, 2, 1, 4, 4, 0, 5]), (2, [0, 5, 2, 0, 4, 5]), (2, [0, 6, 4, 6, 2, 0]), (1, [0, 6, 5, 2, 6, 0, 5]),
+             (2, [0, 6, 0, 4, 0]), (2, [0, 4, 5, 6])]
     seqs = list(fixed)
     for _ in range(40 if not ctx.thorough() else 400):
         ln = rng.randrange(2, 8)
-        seqs.append((rng.choice([1, 2]), [0] + [rng.choice([0, 0, 1, 2, 2, 3, 4, 4, 5]) for _ in range(ln)]))
+        seqs.append((rng.choice([1, 2]), [0] + [rng.choice([0, 0, 1, 2, 2, 3, 4, 4, 5, 6]) for _ in range(ln)]))
     return seqs
 
 
@@ -934,10 +975,12 @@ def run(ctx):
             D = gen_data(rng, ns, nc, kind)
             d = root / ("codec%d" % i)
             d.mkdir()
-            desc = {"kind": "codec", "nc": nc, "ns": ns, "chunk_samples": cs, "content": kind,
-                    "data": [int(x) for x in D.reshape(-1)][:4000]}
+            stem = rng.choice(["rec_g0_t0.nidq", "x", "x.imec0.ap", "probe00.a.b.lf"])
+            as_str = rng.random() < 0.4
+            desc = {"kind": "codec", "nc": nc, "ns": ns, "chunk_samples": cs, "content": kind, "stem": stem,
+                    "str_path": as_str, "data": [int(x) for x in D.reshape(-1)][:4000]}
             try:
-                obs = codec_case(d, nc, ns, cs, D, rng.choice([1, 1, 2, 3]))
+                obs = codec_case(d, nc, ns, cs, D, rng.choice([1, 1, 2, 3]), stem, as_str)
             except Exception as e:
                 ctx.fail("compress/decompress raised %r" % (e,), desc, {"kind": "codec_exception"})
                 continue
@@ -1044,10 +1087,12 @@ def run(ctx):
             ns0 = n if rng.random() < 0.8 else n + rng.choice([1, 2, -1 if n > 1 else 1])
             D = gen_data(rng, n, nc, rng.choice(["full", "small", "extremes"]))
             d = root / ("obj%d" % i)
-            desc = {"kind": "object", "nc": nc, "n": n, "chunk_samples": cs, "meta_ns": ns0,
+            stem = rng.choice(["rec_g0_t0.nidq", "x", "x.imec0.ap", "_spikeglx_ephysData_g0_t0.imec1.lf", "a.b.c.d"])
+            as_str = rng.random() < 0.4
+            desc = {"kind": "object", "nc": nc, "n": n, "chunk_samples": cs, "meta_ns": ns0, "stem": stem, "str_path": as_str,
                     "start": [".bin", ".cbin"][f0 - 1], "ops": ops, "calls": [OBJ_OPS[o] for o in ops]}
             try:
-                obs = object_case(d, nc, n, cs, ns0, f0, ops, D)
+                obs = object_case(d, nc, n, cs, ns0, f0, ops, D, stem, as_str)
             except Exception as e:
                 ctx.fail("sequence on one Reader raised %r" % (e,), desc, {"kind": "object_exception"})
                 continue
@@ -1068,7 +1113,7 @@ def run(ctx):
                 nontrivial.add(("object", f0, tuple(ops), nc, n, cs, ns0))
             if i in (0, 2):
                 samples.append({"kind": "object", "start": desc["start"], "calls": desc["calls"],
-                                "states[raised,file,nbytes,ns,raw,warned,bin,cbin]": obs["steps"]})
+                                "states[raised,file,nbytes,ns,raw,warned,bin,cbin,scratch_bin]": obs["steps"]})
         common.correspondence(ctx, PROP, HEADER, inputs, outputs, lambda i: descr[i], n_kernel=80)
     finally:
         shutil.rmtree(root, ignore_errors=True)
@@ -1109,7 +1154,8 @@ def replay(ctx, data):
     try:
         if inp.get("kind") == "codec" and len(inp.get("data", [])) == inp["nc"] * inp["ns"]:
             D = np.array(inp["data"], dtype=np.int16).reshape(inp["ns"], inp["nc"])
-            obs = codec_case(root, inp["nc"], inp["ns"], inp["chunk_samples"], D, 1)
+            obs = codec_case(root, inp["nc"], inp["ns"], inp["chunk_samples"], D, 1, inp.get("stem", "rec_g0_t0.nidq"),
+                             inp.get("str_path", False))
             print("implementation: bounds", obs["bounds"], "problems", obs["problems"])
             ids = common.coq_mismatches(PROP, HEADER, [common.flat_cases_term(
                 0, enc_codec_in(inp["nc"], inp["ns"], inp["chunk_samples"], D), enc_codec_out(obs))])
@@ -1118,9 +1164,10 @@ def replay(ctx, data):
         elif inp.get("kind") == "object":
             D = gen_data(ctx.rng, inp["n"], inp["nc"], "full")
             f0 = [".bin", ".cbin"].index(inp["start"]) + 1
-            obs = object_case(root / "o", inp["nc"], inp["n"], inp["chunk_samples"], inp["meta_ns"], f0, inp["ops"], D)
+            obs = object_case(root / "o", inp["nc"], inp["n"], inp["chunk_samples"], inp["meta_ns"], f0, inp["ops"], D,
+                              inp.get("stem", "rec_g0_t0.nidq"), inp.get("str_path", False))
             print("calls:", inp["calls"])
-            print("implementation: states [raised,file,nbytes,ns,raw,warned,bin,cbin]", obs["steps"],
+            print("implementation: states [raised,file,nbytes,ns,raw,warned,bin,cbin,scratch_bin]", obs["steps"],
                   "\n problems", obs["problems"])
             ids = [0]
             if len(obs["steps"]) == len(inp["ops"]):
